@@ -3116,3 +3116,170 @@ func ruleBase85GroupRangeChecked(c *eng.Ctx) {
 		}
 	}
 }
+
+// ---------------------------------------------------------------------------------------------------------------
+// R6.15 the '>' that ends a hex string is consumed on every way out.
+
+// R6.15 [C06]
+func ruleHexStringCloserConsumed(c *eng.Ctx) {
+	const R = "R6.15-HEX-STRING-CLOSER-CONSUMED"
+	c.Rule(R, "in contentstream.(*Parser).parseHexString every path that has seen '>' under the cursor moves the cursor past it before the function returns (paths are followed with the knowledge that the byte under an unmoved cursor is still '>' and inside the data): the object parser pads an odd final digit with 0 and ends the string there, so a content stream parser that leaves the '>' behind meets it again as a stray delimiter and refuses <414> Tj", 1, 0)
+	fn := c.P.Func("contentstream.(*Parser).parseHexString")
+	if fn == nil {
+		c.Undec(R, "contentstream.(*Parser).parseHexString", token.NoPos, "anchor not found")
+		return
+	}
+	isPosLoad := func(v ssa.Value) bool {
+		fr, ok := eng.LoadOfField(v)
+		return ok && fr.Field == "pos"
+	}
+	isCur := func(v ssa.Value) bool { // data[pos]
+		u, ok := v.(*ssa.UnOp)
+		if !ok || u.Op != token.MUL {
+			return false
+		}
+		ia, ok := u.X.(*ssa.IndexAddr)
+		if !ok {
+			return false
+		}
+		fr, ok := eng.LoadOfField(ia.X)
+		return ok && fr.Field == "data" && isPosLoad(ia.Index)
+	}
+	movesCursor := func(b *ssa.BasicBlock) bool {
+		for _, in := range b.Instrs {
+			if st, ok := in.(*ssa.Store); ok {
+				if fr, ok := eng.AsField(st.Addr); ok && fr.Field == "pos" {
+					return true
+				}
+			}
+			if call, ok := in.(*ssa.Call); ok {
+				// a local closure whose whole job is to step the cursor (advance := func() { p.pos++ })
+				if cal := eng.StaticCallee(call); cal != nil && cal.Parent() == fn && len(cal.Blocks) == 1 {
+					steps := false
+					eng.Instrs(cal, false, func(i2 ssa.Instruction) {
+						if st, ok := i2.(*ssa.Store); ok {
+							if fr, ok := eng.AsField(st.Addr); ok && fr.Field == "pos" {
+								steps = true
+							}
+						}
+					})
+					if steps {
+						return true
+					}
+				}
+				if cal := eng.StaticCallee(call); cal != nil && eng.InModule(cal) && cal.Signature.Recv() != nil && cal != fn {
+					// a helper that may move the cursor (skipWhitespace): counts as a move only if it stores to pos
+					moved := false
+					eng.Instrs(cal, false, func(i2 ssa.Instruction) {
+						if st, ok := i2.(*ssa.Store); ok {
+							if fr, ok := eng.AsField(st.Addr); ok && fr.Field == "pos" {
+								moved = true
+							}
+						}
+					})
+					if moved {
+						// skipping white space does not pass a '>' : the cursor stays on it
+						continue
+					}
+				}
+			}
+		}
+		return false
+	}
+	n := 0
+	for _, b := range fn.Blocks {
+		if len(b.Instrs) == 0 {
+			continue
+		}
+		iff, ok := b.Instrs[len(b.Instrs)-1].(*ssa.If)
+		if !ok {
+			continue
+		}
+		cmp, ok := iff.Cond.(*ssa.BinOp)
+		if !ok || cmp.Op != token.EQL || !isCur(cmp.X) {
+			continue
+		}
+		if k, isC := eng.ConstInt(cmp.Y); !isC || k != '>' {
+			continue
+		}
+		n++
+		// follow the true edge
+		bad := token.NoPos
+		seen := map[*ssa.BasicBlock]bool{}
+		var dfs func(x *ssa.BasicBlock)
+		dfs = func(x *ssa.BasicBlock) {
+			if seen[x] || bad.IsValid() {
+				return
+			}
+			seen[x] = true
+			if movesCursor(x) {
+				return
+			}
+			if len(x.Instrs) == 0 {
+				return
+			}
+			switch t := x.Instrs[len(x.Instrs)-1].(type) {
+			case *ssa.Return:
+				bad = t.Pos()
+				if !bad.IsValid() {
+					bad = fn.Pos()
+				}
+				return
+			case *ssa.If:
+				if cb, ok := t.Cond.(*ssa.BinOp); ok {
+					// the byte under the unmoved cursor is still '>'
+					if isCur(cb.X) {
+						if k, isC := eng.ConstInt(cb.Y); isC {
+							switch cb.Op {
+							case token.EQL:
+								if k == '>' {
+									dfs(x.Succs[0])
+								} else {
+									dfs(x.Succs[1])
+								}
+								return
+							case token.NEQ:
+								if k == '>' {
+									dfs(x.Succs[1])
+								} else {
+									dfs(x.Succs[0])
+								}
+								return
+							}
+						}
+					}
+					// the cursor is inside the data
+					if isPosLoad(cb.X) {
+						if call, ok := cb.Y.(*ssa.Call); ok {
+							if bi, ok := call.Call.Value.(*ssa.Builtin); ok && bi.Name() == "len" {
+								switch cb.Op {
+								case token.LSS:
+									dfs(x.Succs[0])
+									return
+								case token.GEQ:
+									dfs(x.Succs[1])
+									return
+								}
+							}
+						}
+					}
+				}
+				if call, ok := t.Cond.(*ssa.Call); ok {
+					// isWhitespace(cur), isHexDigit(cur): '>' is neither
+					if len(call.Call.Args) == 1 && isCur(call.Call.Args[0]) {
+						dfs(x.Succs[1])
+						return
+					}
+				}
+			}
+			for _, s := range x.Succs {
+				dfs(s)
+			}
+		}
+		dfs(b.Succs[0])
+		c.Check(!bad.IsValid(), R, fmt.Sprintf("%s#closer@%s", eng.FuncName(fn), c.P.Pos(cmp.Pos())), cmp.Pos(), "the '>' seen here is consumed before the function returns", "after '>' was seen under the cursor here the function can return (at "+c.P.Pos(bad)+") without moving the cursor past it: the next token starts at the stray '>' and the content stream is refused")
+	}
+	if n == 0 {
+		c.Ok(R, eng.FuncName(fn)+"#closer", fn.Pos(), "not evaluated: the function does not compare the byte under its cursor with '>'")
+	}
+}
